@@ -9,7 +9,7 @@ mkdir -p "$D"
 cp -r /repo/python /repo/docs "$D"/
 if ! ( cd "$D" && patch -s -p1 --dry-run < "$P" >/dev/null 2>&1 ); then
   # written against an earlier commit of /repo? (recorded in meta.json)
-  BASE="$(sed -n 's/.*"base": "\([0-9a-f]\{7,40\}\)".*/\1/p' "$(dirname "$P")/meta.json" 2>/dev/null | head -1)"
+  BASE="$(cat "${P%.diff}.base" 2>/dev/null || sed -n 's/.*"base": "\([0-9a-f]\{7,40\}\)".*/\1/p' "$(dirname "$P")/meta.json" 2>/dev/null | head -1)"
   if [ -n "$BASE" ]; then
     rm -rf "$D"; mkdir -p "$D"
     git -C /repo archive "$BASE" python docs | tar -x -C "$D"
